@@ -92,3 +92,58 @@ Fixpoint xrun (h : list call) (x : xstate) : xstate * list (list output) :=
   | [] => (x, [])
   | a :: r => let (x1, o) := xstep a x in let (x2, os) := xrun r x1 in (x2, o :: os)
   end.
+
+(* ---- the XML scanner at token granularity (osmxml/scanner.go Scan loop): the context is tested
+   before EVERY decoder.Token(); cancellation may arrive from another goroutine between any two
+   steps.  [xt_percall = true] is the variant that tests the context once per Scan call only. ---- *)
+Inductive xtok := XObj (v : obj) | XSkip.     (* a start element that yields an object | any other token *)
+Inductive xpc := XIdle | XCheck | XRead.
+Record xts := mkXT { xt_toks : list xtok; xt_err : err; xt_closed : bool; xt_ctx : bool; xt_pc : xpc;
+                     xt_delivered : list obj; xt_tac : nat (* ghost: tokens read after the context was cancelled *) }.
+Inductive xlabel := XLCall (a : call) | XLStep | XLCancel3.
+Definition xtinit (toks : list xtok) : xts := mkXT toks 0%Z false false XIdle [] 0.
+
+Definition xtstep (percall : bool) (l : xlabel) (x : xts) : option (xts * list output) :=
+  match l with
+  | XLCancel3 => Some (mkXT (xt_toks x) (xt_err x) (xt_closed x) true (xt_pc x) (xt_delivered x) (xt_tac x), [])
+  | XLCall a =>
+      match xt_pc x with
+      | XIdle =>
+          match a with
+          | CScan =>
+              if is_err (xt_err x) then Some (x, [OScan false 0%Z])
+              else if percall && xt_ctx x then Some (x, [OScan false 0%Z])
+              else Some (mkXT (xt_toks x) (xt_err x) (xt_closed x) (xt_ctx x) (if percall then XRead else XCheck)
+                              (xt_delivered x) (xt_tac x), [])
+          | CCloseCall => Some (mkXT (xt_toks x) (xt_err x) true true XIdle (xt_delivered x) (xt_tac x), [OClose])
+          | CCancel => Some (mkXT (xt_toks x) (xt_err x) (xt_closed x) true XIdle (xt_delivered x) (xt_tac x), [])
+          | CErr => Some (x, [OErr (if Z.eqb (xt_err x) eEOF then 0%Z else if is_err (xt_err x) then xt_err x
+                                    else if xt_closed x then eClosed else if xt_ctx x then eCtx else 0%Z)])
+          | _ => None
+          end
+      | _ => None
+      end
+  | XLStep =>
+      match xt_pc x with
+      | XIdle => None
+      | XCheck =>
+          if xt_ctx x then Some (mkXT (xt_toks x) (xt_err x) (xt_closed x) true XIdle (xt_delivered x) (xt_tac x), [OScan false 0%Z])
+          else Some (mkXT (xt_toks x) (xt_err x) (xt_closed x) false XRead (xt_delivered x) (xt_tac x), [])
+      | XRead =>
+          let tac := xt_tac x + (if xt_ctx x then 1 else 0) in
+          match xt_toks x with
+          | [] => Some (mkXT [] eEOF (xt_closed x) (xt_ctx x) XIdle (xt_delivered x) tac, [OScan false 0%Z])
+          | XSkip :: r => Some (mkXT r (xt_err x) (xt_closed x) (xt_ctx x) (if percall then XRead else XCheck) (xt_delivered x) tac, [])
+          | XObj v :: r => Some (mkXT r (xt_err x) (xt_closed x) (xt_ctx x) XIdle (xt_delivered x ++ [v]) tac, [OScan true v])
+          end
+      end
+  end.
+
+Fixpoint xtrun (percall : bool) (sched : list xlabel) (x : xts) : xts * list output :=
+  match sched with
+  | [] => (x, [])
+  | l :: r => match xtstep percall l x with
+              | Some (x', o) => let (x'', o') := xtrun percall r x' in (x'', o ++ o')
+              | None => xtrun percall r x
+              end
+  end.
